@@ -24,11 +24,12 @@ def S(a):
 MODELS = {}
 
 MODELS['chain'] = dict(
-    make=lambda: mk({'A1': 1, 'A2': 2, 'B1': '=A1*2', 'C1': '=B1+A2', 'D1': '=C1-1'}),
+    make=lambda: mk({'A1': 1, 'A2': 2, 'B1': '=A1*2', 'C1': '=B1+A2', 'D1': '=C1-1', 'E1': '=-A1--A2'}),
     inputs=[S('A1'), S('A2')],
     formulas={S('B1'): lambda v: v[S('A1')] * 2,
               S('C1'): lambda v: v[S('A1')] * 2 + v[S('A2')],
-              S('D1'): lambda v: v[S('A1')] * 2 + v[S('A2')] - 1},
+              S('D1'): lambda v: v[S('A1')] * 2 + v[S('A2')] - 1,
+              S('E1'): lambda v: -v[S('A1')] + v[S('A2')]},
     names={},
 )
 MODELS['diamond'] = dict(
@@ -47,6 +48,29 @@ MODELS['range'] = dict(
               S('Z2'): lambda v: (v[S('A1')] + v[S('A2')] + v[S('A3')] + v[S('C1')]) * 2,
               S('Z3'): lambda v: v[S('A1')] - v[S('A3')]},
     names={},
+)
+MODELS['range2'] = dict(
+    # a range that contains a formula cell fed by an input outside the range
+    make=lambda: mk({'A1': 1, 'B1': 2, 'B2': '=A1*2', 'B3': 3, 'Z1': '=SUM(B1:B3)', 'Z2': '=MAX(B1:B3)-MIN(B1:B3)+Z1*0'}),
+    inputs=[S('A1'), S('B1'), S('B3')],
+    formulas={S('B2'): lambda v: v[S('A1')] * 2,
+              S('Z1'): lambda v: v[S('B1')] + v[S('A1')] * 2 + v[S('B3')]},
+    names={}, skip=('C13',),
+)
+MODELS['errlit'] = dict(
+    # error literals reaching AND / OR / NOT on every evaluation (the error is absorbed by ISERROR)
+    make=lambda: mk({'A1': 5, 'B1': '=IF(ISERROR(NOT(#N/A)),A1*3,0)', 'B2': '=IF(ISERROR(AND(A1=A1,#N/A)),A1,0)', 'B3': '=IF(ISERROR(OR(#N/A,A1>0)),A1+1,0)'}),
+    inputs=[S('A1')],
+    formulas={S('B1'): lambda v: v[S('A1')] * 3, S('B2'): lambda v: v[S('A1')], S('B3'): lambda v: v[S('A1')] + 1},
+    names={}, skip=('C04', 'C13'),
+)
+MODELS['twins'] = dict(
+    # the same unqualified formula text on two sheets over different data
+    make=lambda: mk_sheets({'Jan!A1': 1, 'Feb!A1': 10, 'Jan!A2': 2, 'Feb!A2': 20, 'Jan!B1': '=A1*2', 'Feb!B1': '=A1*2', 'Jan!B2': '=SUM(A1:A2)', 'Feb!B2': '=SUM(A1:A2)'}, default='Jan'),
+    inputs=['Jan!A1', 'Feb!A1'],
+    formulas={'Jan!B1': lambda v: v['Jan!A1'] * 2, 'Feb!B1': lambda v: v['Feb!A1'] * 2,
+              'Jan!B2': lambda v: v['Jan!A1'] + 2, 'Feb!B2': lambda v: v['Feb!A1'] + 20},
+    names={}, skip=('C04', 'C13'),
 )
 MODELS['names'] = dict(
     make=lambda: _named({'Sheet1!A1': 1, 'Sheet2!A1': 10, 'Sheet1!B1': '=rate*A1', 'Sheet2!B1': '=Sheet1!B1+Sheet2!A1', 'Sheet1!C1': '=Sheet2!B1-rate'},
